@@ -165,7 +165,7 @@ def scenarios():
     code = ("import json\nfrom props.C17_native import legacy\nprint('@@'+json.dumps(legacy(), default=str))")
     p = subprocess.run([sys.executable, "-c", code], capture_output=True, text=True, env=dict(os.environ))
     failures += json.loads(p.stdout.rsplit("@@", 1)[1]) if "@@" in p.stdout else [{"config": "legacy", "error": p.stderr[-500:]}]
-    for fn_ in ("legacy_calls", "rest_mixin_bindings"):
+    for fn_ in ("legacy_calls", "rest_mixin_bindings", "rest_mixin_calls"):
         code = ("import json\nfrom props.C17_native import %s as f\nprint('@@'+json.dumps(f(), default=str))" % fn_)
         p = subprocess.run([sys.executable, "-c", code], capture_output=True, text=True, env=dict(os.environ))
         failures += json.loads(p.stdout.rsplit("@@", 1)[1]) if "@@" in p.stdout else [{"config": fn_, "error": p.stderr[-500:]}]
@@ -207,6 +207,66 @@ def legacy_calls():
                     if which == "async" and isinstance(e, KeyError):
                         f_["known"] = "async-legacy-iam-not-wrapped"
                     failures.append(f_)
+    return failures
+
+
+def rest_mixin_calls():
+    """Mixin rpcs called over REST: verb and path of the rule, and a JSON body exactly when the rule has one."""
+    import importlib, json as _json
+    from vf import genlab as G
+    from google.auth.credentials import AnonymousCredentials
+    from google.iam.v1 import iam_policy_pb2, policy_pb2
+    from google.cloud.location import locations_pb2
+    from google.longrunning import operations_pb2
+    failures = []
+    rules = ["google.iam.v1.IAMPolicy.SetIamPolicy", "google.iam.v1.IAMPolicy.TestIamPermissions", "google.longrunning.Operations.CancelOperation",
+             "google.longrunning.Operations.GetOperation", "google.cloud.location.Locations.GetLocation"]
+    y = yaml_for(list(SERVICES), rules)
+    api, res = G.generate(files(), "autogen-snippets=false,transport=grpc+rest", service_yaml=y, extra_dep_modules=(iam_policy_pb2, locations_pb2))
+    with G.materialised(res):
+        lab_v1 = importlib.import_module("acme.lab_v1")
+        tr_mod = importlib.import_module("acme.lab_v1.services.lab.transports.rest")
+        calls = []
+
+        class Reply:
+            status_code = 200
+            content = b"{}"
+            headers = {}
+            request = None
+
+        class Session:
+            def _do(self, verb, url, data=None, **kw):
+                calls.append((verb, url, data))
+                return Reply()
+
+            def close(self):
+                pass
+        for v in ("get", "post", "put", "patch", "delete"):
+            setattr(Session, v, (lambda vv: lambda self, url, **kw: self._do(vv, url, **kw))(v))
+        tr_mod.AuthorizedSession = lambda *a, **k: Session()
+        client = lab_v1.LabClient(transport=tr_mod.LabRestTransport(credentials=AnonymousCredentials()))
+        reqs = {"SetIamPolicy": iam_policy_pb2.SetIamPolicyRequest(resource="things/1", policy=policy_pb2.Policy(version=3)),
+                "TestIamPermissions": iam_policy_pb2.TestIamPermissionsRequest(resource="things/1", permissions=["p"]),
+                "CancelOperation": operations_pb2.CancelOperationRequest(name="things/1"), "GetOperation": operations_pb2.GetOperationRequest(name="things/1"),
+                "GetLocation": locations_pb2.GetLocationRequest(name="things/1")}
+        for rule in y["http"]["rules"]:
+            m = rule["selector"].rsplit(".", 1)[1]
+            verb = next(v for v in ("get", "post", "delete") if v in rule)
+            del calls[:]
+            try:
+                getattr(client, snake(m))(request=reqs[m])
+            except Exception as e:      # noqa
+                failures.append({"mixin": m, "transport": "rest", "what": "the call raised", "error": repr(e)[:200]})
+                continue
+            if len(calls) != 1 or calls[0][0] != verb or not calls[0][1].endswith(rule[verb].replace("{name=things/*}", "things/1").replace("{resource=things/*}", "things/1")):
+                failures.append({"mixin": m, "transport": "rest", "what": "verb / path", "got": calls[:1], "rule": rule})
+                continue
+            body = calls[0][2]
+            has_body = body not in (None, "", b"")
+            if has_body != bool(rule.get("body")):
+                failures.append({"mixin": m, "transport": "rest", "what": "a JSON body is sent exactly when the rule has a body", "rule_body": rule.get("body"), "sent": repr(body)[:100]})
+            elif has_body and m == "SetIamPolicy" and _json.loads(body).get("policy", {}).get("version") != 3:
+                failures.append({"mixin": m, "transport": "rest", "what": "body content", "sent": repr(body)[:200]})
     return failures
 
 
